@@ -2,6 +2,7 @@ package cache
 
 import (
 	"hash/maphash"
+	"math"
 	"sync"
 	"time"
 
@@ -23,6 +24,11 @@ type MemoryCache struct {
 }
 
 func NewMemoryCache(size int) (*MemoryCache, error) {
+	// The backend keeps its capacity in 32 bits. A larger size would wrap.
+	// (4 GiB would be a cache without any capacity.)
+	if uint64(size) > math.MaxUint32 {
+		size = math.MaxUint32
+	}
 	builder, err := otter.NewBuilder[string, *cacheEntry](size)
 	if err != nil {
 		return nil, err
